@@ -132,3 +132,29 @@ def chains():
         out.append(list(ch))
         out.append(list(reversed(ch)))
     return out
+
+
+# schemas built by plain DDL (independent of the SDL loader), for the
+# describe round trip (C03)
+DDL_HISTORIES = [
+    "create abstract type default::Named { create required property name -> std::str; "
+    "create constraint std::exclusive on (.name); }; "
+    "create type default::City extending default::Named; "
+    "create type default::Asker { create link home := (select default::City filter .name = 'x'); };",
+    "create abstract type default::Named { create required property name -> std::str; "
+    "create constraint std::exclusive on (.name); }; "
+    "create type default::Mid extending default::Named; "
+    "create type default::Zed extending default::Mid; "
+    "create type default::Aaa { create link z := (select default::Zed filter .name = 'z'); "
+    "create property zn := (.z.name); };",
+    "create module lib; create module lib::geo; "
+    "create abstract type lib::Base { create property name -> std::str; }; "
+    "create type lib::geo::City extending lib::Base { create property pop -> std::int64; }; "
+    "create type default::Z { create multi link c -> lib::geo::City; };",
+    "create function default::f(x: std::int64) -> std::int64 using (x + 1); "
+    "create type default::T { create property p -> std::int64; create property q := (default::f(.p)); }; "
+    "create alias default::TT := default::T { r := .q + 1 }; "
+    "create global default::cur -> std::str;",
+    "create abstract type default::A { create property a -> std::str { set default := 'x'; }; }; "
+    "create type default::C extending default::A { alter property a { set owned; set default := 'y'; }; };",
+]
